@@ -43,7 +43,7 @@ def build_native(inst, wd, sanitize, from_ir=None):
         ll2 = os.path.join(wd, 'h_yield.ll')
         instrument_ll(from_ir, ll2)
         cmd = ['clang++-14', '-O1', '-Wno-everything', ll2, '-std=c++14', rt] + incs + \
-              ['-Wl,--wrap=syscall', '-lpthread', '-o', exe]
+              ['-Wl,--wrap=syscall,--wrap=malloc,--wrap=free', '-lpthread', '-o', exe]
         for x in inst.get('native_extra', []):
             cmd.append(os.path.join(engine.ROOT, x))
     else:
@@ -56,7 +56,7 @@ def build_native(inst, wd, sanitize, from_ir=None):
         srcs = [src, rt] + [os.path.join(engine.REPO, s) for s in inst.get('repo_sources', [])]
         for x in inst.get('native_extra', []):
             srcs.append(os.path.join(engine.ROOT, x))
-        cmd = ['clang++-14'] + flags + defs + incs + srcs + ['-Wl,--wrap=syscall', '-lpthread', '-o', exe]
+        cmd = ['clang++-14'] + flags + defs + incs + srcs + ['-Wl,--wrap=syscall,--wrap=malloc,--wrap=free', '-lpthread', '-o', exe]
     rc, out, err, t = engine.sh(cmd, timeout=600)
     if rc != 0:
         return None, 'native build failed: ' + err[-1500:]
